@@ -693,3 +693,16 @@ class Factory:
 
     def __call__(self):
         return self.proto
+
+
+def hex_of_words(w, words):
+    """Lower-case hex rendering of little-endian 16-bit words (value / engine string)."""
+    import binascii
+    import struct
+    if not w.symbolic:
+        return binascii.hexlify(struct.pack(f"<{len(words)}H", *words)).decode()
+    from symex import models
+    packed = models.m_struct_pack(w.it, [f"<{len(words)}H"] + list(words), {})
+    if packed is models.MISSING:
+        return binascii.hexlify(struct.pack(f"<{len(words)}H", *words)).decode()
+    return SStr(models.m_hexlify(w.it, [packed], {}).bs)
